@@ -144,6 +144,190 @@ def case_jvec(case):
         c07.teardown(E, X)
 
 
+def case_jvec_dict(case):
+    """J v with source-dependent computational grids (gridding='dict', two
+    grids of EQUAL shape but different widths): the sensitivity source of
+    every source is built from the vector volume-averaged to ITS OWN grid."""
+    aniso, mapping = case
+    from . import c15
+    E = shadow.load()
+    c = set_ctx(Ctx(timeout_ms=120000))
+    State.OBJECT_ALLOC = True
+    warnings.filterwarnings('ignore')
+    grp = f"jvec gridding='dict' aniso={aniso} mapping={mapping}"
+    hb = [np.array([1., 2., 2., 1.]), np.array([2., 1., 1., 1.]),
+          np.array([2., 1., 1.])]
+    gridB = {}
+
+    def gopts(sv, grid):
+        gridB['g'] = E.meshes.TensorMesh(hb, (0., 0., 0.))
+        srcs, freqs = list(sv.sources), list(sv.frequencies)
+        return {s_: {f_: (grid if i == 0 else gridB['g']) for f_ in freqs}
+                for i, s_ in enumerate(srcs)}
+    X = c07.build(E, c, 'ee', aniso, mapping, nsrc=2, gridding='dict',
+                  sim_kw=dict(gridding_opts=gopts))
+    obs = []
+    try:
+        sim, sv, grid, model = X['sim'], X['sv'], X['grid'], X['model']
+        shape = grid.shape_cells
+        comps = COMPS[aniso]
+        vshape = shape if aniso == 'iso' else (len(comps),)+tuple(shape)
+        v = sym_array('v', vshape)
+        captured = []
+        real_solve = E._multiprocessing.solver.solve
+
+        def spy(model, sfield, **kw):
+            captured.append(sfield)
+            return real_solve(model, sfield, **kw)
+        E._multiprocessing.solver.solve = spy
+        try:
+            sim.misfit
+            captured.clear()
+            jv = sim.jvec(v)
+        finally:
+            E._multiprocessing.solver.solve = real_solve
+        if len(captured) != 2:
+            return [ob("jvec calls the solver once per source-frequency",
+                       'cex', group=grp, cls='concrete',
+                       key="jvec solver calls",
+                       cex=dict(kind='jvec_dict', case=list(case)))]
+        smu0 = Qc(0, 2*np.pi*1.0*mu_0)
+        M = model.map
+        varr = v if aniso != 'iso' else v[None, ...]
+        # v' = v * dsigma/dp on the MODEL grid
+        vp = {}
+        for ci, (pname, dirs) in enumerate(comps):
+            prop = getattr(model, 'property_'+pname)
+            arr = np.empty(shape, dtype=object)
+            for k in np.ndindex(*shape):
+                p = prop[k]
+                sig = M.backward(np.array([p], dtype=object).view(
+                    symx.SymArray))[0]
+                dsdp = c14.ddx(c, symx.qt(sig), symx.qt(p))
+                arr[k] = Q(symx.qt(varr[ci][k])*dsdp)
+            for d in dirs:
+                vp[d] = arr
+        nodes_m = [np.r_[0., np.cumsum(np.asarray(grid.h[d]))]
+                   for d in range(3)]
+        for si, sname in enumerate(sv.sources):
+            fname = list(sv.frequencies)[0]
+            g_s = sim.get_grid(sname, fname)
+            gf = [f for f in captured if f.grid is g_s]
+            t1 = time.time()
+            if len(gf) != 1:
+                obs.append(ob(f"source {sname}: one sensitivity solve on "
+                              f"its own grid", 'cex', group=grp,
+                              cls='concrete', key="jvec (gridding='dict'): "
+                              "sensitivity source on the wrong grid",
+                              cex=dict(kind='jvec_dict', case=list(case))))
+                continue
+            gfield = gf[0]
+            ef = sim._dict_get('efield', sname, fname)
+            eparts = [ef.fx, ef.fy, ef.fz]
+            gparts = [gfield.fx, gfield.fy, gfield.fz]
+            h = g_s.h
+            nodes_s = [np.r_[0., np.cumsum(np.asarray(h[d]))]
+                       for d in range(3)]
+            shp_s = g_s.shape_cells
+            # the vector volume-averaged to this source's grid (independent
+            # overlap oracle of C15)
+            cv = {d: c15.oracle(nodes_m, nodes_s, vp[d]) for d in range(3)}
+            vd = 'held'
+            nent = 0
+            for d in range(3):
+                d1, d2 = fit.CYC[d]
+                for e in np.ndindex(*fit.edge_shape(shp_s, d)):
+                    acc = Q(Fraction(0))
+                    for a in (0, 1):
+                        for b in (0, 1):
+                            k = list(e)
+                            k[d1] -= a
+                            k[d2] -= b
+                            if not all(0 <= k[q] < shp_s[q]
+                                       for q in range(3)):
+                                continue
+                            k = tuple(k)
+                            V = float(h[0][k[0]]*h[1][k[1]]*h[2][k[2]])
+                            acc = acc + cv[d][k]*Fraction(V)/4
+                    want = -(smu0*Qc._co(eparts[d][e]))*acc
+                    v1, m = c.valid(c07.eqc(gparts[d][e], want),
+                                    label='gfield dict')
+                    nent += 1
+                    if v1 != 'held':
+                        vd = v1
+                        break
+                if vd != 'held':
+                    break
+            obs.append(ob(
+                f"source {sname} (grid {'A' if g_s is grid else 'B'}): "
+                f"source of its sensitivity solve ({nent} edges) == -(dA/dp "
+                f". V v) E with v volume-averaged to ITS OWN grid", vd,
+                group=grp, cls='POLY-ID', seconds=time.time()-t1,
+                key="jvec (gridding='dict'): sensitivity source built from "
+                    "another pair's vector/grid",
+                cex=dict(kind='jvec_dict', case=list(case))
+                if vd == 'cex' else None))
+        if c.stats['forks']:
+            obs.append(ob("harness: unexpected fork", 'error', group=grp))
+        return obs
+    finally:
+        c07.teardown(E, X)
+
+
+def _replay_jvec_dict(cex):
+    """Real package, gridding='dict' with two same-shape grids: J v of the
+    two-source survey vs central finite differences of the data."""
+    import emg3d
+    warnings.filterwarnings('ignore')
+    aniso, mapping = cex['case'][:2]
+    rng = np.random.default_rng(2)
+    hx = np.array([2., 1., 1., 2.])*100
+    grid = emg3d.TensorMesh([hx, np.array([1., 1., 2., 1.])*100,
+                             np.array([1., 2., 1., 2.])*100], (0, 0, 0))
+    gridB = emg3d.TensorMesh([np.array([1., 2., 2., 1.])*100,
+                              np.array([2., 1., 1., 1.])*100,
+                              np.array([2., 1., 1., 2.])*100], (0, 0, 0))
+    src = [emg3d.TxElectricDipole((250.+50*i, 150.+100*i, 150.+50*i,
+                                   20., 10.)) for i in range(2)]
+    rec = [emg3d.RxElectricPoint((225.+50*i, 250.-25*i, 200.+25*i, 30.*i,
+                                  10.*i)) for i in range(2)]
+    M = getattr(emg3d.maps, 'Map'+mapping)()
+    names = ['property_x']+(['property_y'] if aniso in (
+        'HTI', 'triaxial') else [])+(['property_z'] if aniso in (
+            'VTI', 'triaxial') else [])
+    kw = {n: M.forward(rng.uniform(.5, 2, grid.shape_cells)) for n in names}
+    survey = emg3d.Survey(src, rec, [1.0], noise_floor=1e-15,
+                          relative_error=0.05)
+    gopts = {s_: {'f-1': (grid if i == 0 else gridB)}
+             for i, s_ in enumerate(survey.sources)}
+    opts = dict(gridding='dict', gridding_opts=gopts, max_workers=1, verb=0,
+                receiver_interpolation='linear', tqdm_opts=False,
+                solver_opts=dict(tol=1e-10, plain=True, maxit=200))
+    sim0 = emg3d.Simulation(survey, emg3d.Model(grid, mapping=mapping,
+                                                **kw), **opts)
+    sim0.compute(observed=True)
+    sim = emg3d.Simulation(sim0.survey, emg3d.Model(grid, mapping=mapping,
+                                                    **kw), **opts)
+    shp = grid.shape_cells if aniso == 'iso' else (len(names),)+tuple(
+        grid.shape_cells)
+    v = rng.normal(size=shp)
+    jv = sim.jvec(v).copy()
+    step = 1e-4
+    varr = v if aniso != 'iso' else v[None, ...]
+    dat = []
+    for sgn in (1, -1):
+        k3 = {n: kw[n]+sgn*step*varr[i] for i, n in enumerate(names)}
+        s3 = emg3d.Simulation(sim0.survey, emg3d.Model(
+            grid, mapping=mapping, **k3), **opts)
+        s3.compute()
+        dat.append(s3.data.synthetic.data.copy())
+    fd = (dat[0]-dat[1])/(2*step)
+    fde = np.abs(fd-jv).max()/np.abs(fd).max()
+    return fde > 1e-3, (f"real Simulation (gridding='dict', two grids of "
+                        f"equal shape, {aniso}, {mapping}): |Jv-FD|/|FD| = "
+                        f"{fde:.2e}")
+
+
 def case_jtvec(case):
     recs, aniso, mapping = case
     E = shadow.load()
@@ -249,6 +433,8 @@ def case_gradient_equiv(case):
 def replay(cex):
     """Real package: J v vs finite differences, adjoint test, jtvec vs
     gradient (public API)."""
+    if cex.get('kind') == 'jvec_dict':
+        return _replay_jvec_dict(cex)
     import emg3d
     warnings.filterwarnings('ignore')
     recs, aniso, mapping = cex['case'][:3]
@@ -337,7 +523,9 @@ def main(tier):
                  for m in maps_]
         tcases = cases+[('me', 'iso', 'Resistivity'),
                         ('mem', 'VTI', 'Conductivity')]
-    jobs = [('case_jvec', x) for x in cases] + \
+    jobs = [('case_jvec_dict', ('iso', 'Conductivity')),
+            ('case_jvec_dict', ('VTI', 'LgResistivity'))] + \
+        [('case_jvec', x) for x in cases] + \
         [('case_jtvec', x) for x in tcases] + \
         [('case_gradient_equiv', x) for x in cases[:4]]
     obs = pmap(_dispatch, jobs)
